@@ -903,6 +903,157 @@ def main():
         import traceback
         out["mismatch"].append({"what": "callback-args", "struct": "probe", "member": "", "detail": "callback probe raised %r %s" % (e, traceback.format_exc()[-400:])})
 
+    # ---- 9. DERIVED simulations (copy(), pickle round trip, file load, archive snapshot), with the source alive and after the
+    #         source was deleted: every pointer the python layer dereferences (sim back pointers of particles, var_config,
+    #         odes) points into the object it was reached from, and a write through a handle of the derived object changes
+    #         exactly the derived object's bytes and nothing in the source (raw memory of BOTH objects compared)
+    out["checked"]["derived"] = 0
+    try:
+        import gc, pickle, os, warnings
+        if vstride is None:
+            raise KeyError("no C layout")
+        off_odes = co["reb_simulation"]["odes"][0]; off_nodes = co["reb_simulation"]["N_odes"][0]
+        off_psim = co["reb_particle"]["sim"][0]; off_vsim = co[vc]["sim"][0]; off_oder = co["reb_ode"]["r"][0]
+
+        def badd(member, detail):
+            out["mismatch"].append({"what": "derived-object", "struct": "Variation" if member in ("_sim", "lrescale", "particles", "vary") else "Simulation",
+                                    "member": member, "detail": detail})
+
+        def source():
+            s_ = mk(); s_.integrator = "whfast"; s_.dt = 0.01
+            s_.particles[1].hash = "b"
+            a = s_.add_variation(); t_ = s_.add_variation(testparticle=2); b = s_.add_variation()
+            s_.add_variation(order=2, first_order=a, first_order_2=b)
+            return s_
+
+        class Mem:
+            """raw view of one simulation: struct, particle array, var_config array (addresses re-read from the struct)"""
+            def __init__(self, sim_):
+                self.b = ctypes.addressof(sim_)
+            def N(self): return ctypes.c_uint.from_address(self.b + off_N).value
+            def k(self): return ctypes.c_uint.from_address(self.b + off_nvc).value
+            def pbase(self): return ctypes.c_void_p.from_address(self.b + off_pp).value
+            def vbase(self): return ctypes.c_void_p.from_address(self.b + off_vcp).value
+            def snap(self):
+                return (ctypes.string_at(self.b, simsize), ctypes.string_at(self.pbase(), self.N() * pstride),
+                        ctypes.string_at(self.vbase(), self.k() * vstride))
+            def vint(self, i, m): return ctypes.c_int.from_address(self.vbase() + i * vstride + voff[m]).value
+            def back_pointers(self):
+                """(what, index, pointer) for every back pointer stored inside this simulation's memory"""
+                r_ = [("particles[%d].sim" % j, ctypes.c_void_p.from_address(self.pbase() + j * pstride + off_psim).value) for j in range(self.N())]
+                r_ += [("var_config[%d].sim" % i, ctypes.c_void_p.from_address(self.vbase() + i * vstride + off_vsim).value) for i in range(self.k())]
+                no = ctypes.c_int.from_address(self.b + off_nodes).value
+                ob = ctypes.c_void_p.from_address(self.b + off_odes).value
+                for q in range(no):
+                    op_ = ctypes.c_void_p.from_address(ob + 8 * q).value
+                    r_.append(("odes[%d]->r" % q, ctypes.c_void_p.from_address(op_ + off_oder).value))
+                return r_
+
+        def regions_diff(a, b_):
+            names = ("struct reb_simulation", "particles[]", "var_config[]")
+            return [(names[q], diff_ranges(a[q], b_[q])[:6]) for q in range(3) if a[q] != b_[q]]
+
+        def check_derived(how, D, S, keep=()):
+            MD = Mem(D); MS = Mem(S) if S is not None else None
+            tag = "%s, source %s" % (how, "alive" if S is not None else "deleted")
+            okp = True
+            for what_, ptr in MD.back_pointers():
+                out["checked"]["derived"] += 1
+                if ptr != MD.b:
+                    okp = False
+                    badd("_sim", "%s: derived simulation at %#x: C %s = %#x%s" % (tag, MD.b, what_, ptr or 0, " (the SOURCE simulation)" if MS is not None and ptr == MS.b else ""))
+            if MS is not None:
+                for what_, ptr in MS.back_pointers():
+                    if ptr != MS.b:
+                        okp = False; badd("_sim", "%s: source simulation at %#x: C %s = %#x" % (tag, MS.b, what_, ptr or 0))
+            if MS is not None and (MD.pbase() == MS.pbase() or MD.vbase() == MS.vbase()):
+                okp = False; badd("particles", "%s: derived and source simulation share the particles / var_config array" % tag)
+            # python-level pointers
+            for i in range(MD.k()):
+                out["checked"]["derived"] += 1
+                pa = ctypes.cast(D.var_config[i]._sim, ctypes.c_void_p).value
+                if pa != MD.b:
+                    okp = False; badd("_sim", "%s: D.var_config[%d]._sim points to %#x, D is at %#x" % (tag, i, pa or 0, MD.b))
+            if not okp:
+                return False           # dereferencing foreign / dangling pointers below could crash the probe
+            serial = [0]
+            # a lookup by hash lazily (re)builds the C lookup table: those members of the struct may legitimately change
+            cache = []
+            for m_ in ("particle_lookup_table", "hash_ctr", "N_lookup", "N_allocated_lookup"):
+                o_, n_ = co["reb_simulation"][m_]; cache += list(range(o_, o_ + n_))
+            def write_check(label, fn, region, lo, n, expect=None, allow=()):
+                out["checked"]["derived"] += 1
+                d0 = MD.snap(); s0 = MS.snap() if MS is not None else None
+                try:
+                    fn()
+                except Exception as e:
+                    badd(label, "%s: %s raised %r" % (tag, label, e)); return
+                d1 = MD.snap(); s1 = MS.snap() if MS is not None else None
+                if s0 is not None and s0 != s1:
+                    badd(label, "%s: a write through the DERIVED object's %s changed the SOURCE simulation: %s" % (tag, label, regions_diff(s0, s1)))
+                for q in range(3):
+                    ch = diff_ranges(d0[q], d1[q])
+                    if q == region:
+                        if [c for c in ch if not (lo <= c < lo + n)] or (expect is not None and d1[q][lo:lo + n] != expect):
+                            badd(label, "%s: %s: derived object's bytes [%d,+%d) hold %r (expected %r); other bytes changed: %s" % (tag, label, lo, n, d1[q][lo:lo + n].hex(), expect and expect.hex(), [c for c in ch if not (lo <= c < lo + n)][:6]))
+                    elif [c for c in ch if not (q == 0 and c in allow)]:
+                        badd(label, "%s: %s changed region %d of the derived object at %s" % (tag, label, q, ch[:6]))
+            for i in range(MD.k()):
+                h = D.var_config[i]
+                serial[0] += 1; val = -(2.0 + serial[0] / 32.0)
+                write_check("lrescale", lambda: setattr(h, "lrescale", val), 2, i * vstride + voff["lrescale"], 8, struct.pack("<d", val))
+                if h.lrescale != val:
+                    badd("lrescale", "%s: D.var_config[%d].lrescale = %r reads back %r" % (tag, i, val, h.lrescale))
+                ps = h.particles
+                for j in range(len(ps)):
+                    serial[0] += 1; val = 50.0 + serial[0] / 16.0
+                    write_check("particles", lambda: setattr(ps[j], "x", val), 1, (MD.vint(i, "index") + j) * pstride + poff["x"], 8, struct.pack("<d", val))
+                if MD.vint(i, "order") == 1 and MD.vint(i, "testparticle") < 0:
+                    lo = MD.vint(i, "index") * pstride
+                    write_check("vary", lambda: h.vary(1, "a"), 1, lo, len(ps) * pstride)
+            for j in (0, -1, "b"):
+                serial[0] += 1; val = 0.25 + serial[0] / 64.0
+                jj = {0: 0, -1: MD.N() - 1, "b": 1}[j]
+                write_check("particles[%r].m" % j, lambda: setattr(D.particles[j], "m", val), 1, jj * pstride + poff["m"], 8, struct.pack("<d", val),
+                            allow=cache if j == "b" else ())
+            if MS is not None:
+                # and the other way round: writes through the source's handles leave the derived object alone
+                d0 = MD.snap()
+                S.var_config[1].lrescale = -9.5; S.var_config[2].particles[0].x = 77.0; S.particles[1].m = 0.123
+                out["checked"]["derived"] += 1
+                if MD.snap() != d0:
+                    badd("lrescale", "%s: writes through the SOURCE's handles changed the derived simulation: %s" % (tag, regions_diff(d0, MD.snap())))
+            return True
+
+        fn = os.path.join(job["tmpdir"], "c18_derived_%d.bin" % os.getpid())
+        def derive(how, S):
+            if how == "copy()": return S.copy(), None
+            if how == "pickle": return pickle.loads(pickle.dumps(S)), None
+            if os.path.exists(fn): os.remove(fn)
+            S.save_to_file(fn)
+            if how == "file": return rebound.Simulation(fn), None
+            sa_ = rebound.Simulationarchive(fn)
+            return sa_[0], sa_
+        with warnings.catch_warnings():
+            warnings.simplefilter("ignore")
+            for how in ("copy()", "pickle", "file", "archive[0]"):
+                S = source(); D, keep_ = derive(how, S)
+                ok_alive = check_derived(how, D, S)
+                del D, keep_
+                if ok_alive:
+                    S = source(); D, keep_ = derive(how, S)
+                    del S; gc.collect()
+                    junk = [mk() for _ in range(3)]          # let the allocator reuse the freed blocks
+                    check_derived(how, D, None)
+                    del junk, D, keep_
+            # derived from a derived one (copy of a copy)
+            S = source(); D1 = S.copy(); D2 = D1.copy()
+            check_derived("copy() of copy()", D2, D1)
+        if os.path.exists(fn): os.remove(fn)
+    except Exception as e:
+        import traceback
+        out["mismatch"].append({"what": "derived-object", "struct": "Simulation", "member": "probe", "detail": "derived-object probe raised %r %s" % (e, traceback.format_exc()[-400:])})
+
     # ---- 4. symbols resolve in the loaded library
     for mod, sym in job["symbols"]:
         if mod in job["dead_modules"]:
